@@ -261,7 +261,8 @@ def do_numeric(case, rec, rng, d):
     from geoh5py.workspace import Workspace
 
     kind, entry, dtype = case["dkind"], case["entry"], case["dtype"]
-    n = 5
+    n = 1 if case.get("rep", 0) % 3 == 2 else 5  # one-entry channels (an object with a single vertex) every third repetition
+    rec.see(f"channel-length:{n}")
     path = os.path.join(d, "v.geoh5")
     ws = Workspace.create(path)
     pts = Points.create(ws, vertices=np.arange(3 * n, dtype=float).reshape(n, 3), name="p")
